@@ -26,15 +26,16 @@ EXCS = ("SerialException", "PortNotOpenError", "SerialTimeoutException", "OSErro
         "RuntimeError", "OSError_EAGAIN",
         "InterruptedError", "BrokenPipeError")
 PRIM_PROFILE = Profile(write_exc=EXCS, read_exc=EXCS, latency=(0, 1, 24, 25, 26),
-                       content=("bare", "nocomma", "echo", "commapay", "wrong", "shifted", "err",
-                                "nameerr", "sibling", "cut"), silent=True,
+                       content=("bare", "nocomma", "echo", "commapay", "spacepay", "tabpay", "wrong",
+                                "shifted", "err", "nameerr", "sibling", "cut", "longerr"),
+                       silent=True,
                        read_window=4, late={25, 26},
                        # the reads to wait through may be bare line ends instead of nothing
                        blank=("\r\n", "\n", " \r\n"))
 METH_PROFILE = Profile(write_exc=("SerialException", "OSError"),
                        read_exc=("SerialException", "PortNotOpenError", "OSError"),
                        latency=(0, 1, 25, 26),
-                       content=("wrong", "shifted", "err", "nameerr", "sibling", "cut"),
+                       content=("wrong", "shifted", "err", "nameerr", "sibling", "cut", "longerr"),
                        silent=True, read_window=2)
 # reboot()/bootload() write to the port themselves and contain the pyserial exception family
 # only; pyserial wraps OS-level failures of write() into SerialException, so a bare OSError is
@@ -55,7 +56,7 @@ REQUESTS = ["V", "v", "R", "QG", "QM", "S2,0,4", "C,1,2", "SM,10,1,1", "  SM,10,
             "L3," + ",".join(["-123456789"] * 11) + ",1234"]
 assert [len(r.strip()) for r in REQUESTS[-4:]] == [63, 64, 65, 128]
 EXEMPT = ("rb", "r", "bl")              # I/O exceptions deliberately ignored (board leaves the bus)
-FAILING_CONTENT = ("wrong", "shifted", "err", "nameerr", "sibling", "cut")
+FAILING_CONTENT = ("wrong", "shifted", "err", "nameerr", "sibling", "cut", "longerr")
 
 
 def ref_name(request):
